@@ -72,6 +72,9 @@ func (ps *pathState) newFlag(name string) value {
 }
 
 func (ps *pathState) flagDecide(name string) bool {
+	if ps.noFaults {
+		return false
+	}
 	f := ps.newFlag(name).(sym)
 	return ps.decide(f.t)
 }
@@ -92,6 +95,8 @@ func registerEnvStubs(e *Engine) {
 		fr.i.ps.store["scope"] = mustStr(a[0], "Scope")
 		return nil
 	}
+	in["zz.Faults"] = func(fr *frame, a []value) value { fr.i.ps.noFaults = !a[0].(bool); return nil }
+	in["zz.PanicSite"] = func(fr *frame, a []value) value { return normSite(fr.i.ps.recoveredSite) }
 	in["zz.StubOn"] = func(fr *frame, a []value) value {
 		fr.i.ps.env().stubsOn[mustStr(a[0], "StubOn")] = true
 		return nil
@@ -866,4 +871,17 @@ func jsonEscapeSym(ps *pathState, bs []*smt.Term) []*smt.Term {
 		}
 	}
 	return append(out, c("\"")...)
+}
+
+// normSite reduces a function name to pkg.Func / pkg.Type.Method so that the executor
+// and the native runtime name panic sites identically.
+func normSite(s string) string {
+	s = strings.NewReplacer("(*", "", "(", "", ")", "", "*", "").Replace(s)
+	if i := strings.LastIndex(s, "/"); i >= 0 {
+		s = s[i+1:]
+	}
+	if i := strings.Index(s, "$"); i >= 0 {
+		s = s[:i]
+	}
+	return s
 }
